@@ -11,7 +11,10 @@ PROP = dict(
           "(leap days, century and 400-year edges, range ends, 2038, a fixed pseudo-random fill with month ends). For each instant t: "
           "Date(t).splitUTC() year/month/day/hours/minutes/seconds/weekDay == the fields computed by an independent civil-from-days "
           "implementation (harness/common/ref_civil.h, audited at every start against a day-by-day odometer and digests computed with "
-          "python's datetime over all 3,652,059 days and 10,000 instants); Date(Date::UTC, fields).time() == t exactly; "
+          "python's datetime over all 3,652,059 days and 10,000 instants); the local-time accessors compared with the same reference fields (the driver sets TZ=UTC, so local == UTC): split() at every "
+          "instant, year()/month()/day()/hours()/minutes()/seconds()/weekDay() at every second of the sampled days and at one of the three "
+          "instants of every day (00:00:00 / 12:00:00 / 23:59:59 rotating with the day number), and on the fractional instants of (4) with the "
+          "same carry rule as splitUTC; Date(Date::UTC, fields).time() == t exactly; "
           "Date(Date(t).toUTCString(F)).time() == t for F in LONG, SHORT, HTTP and within 1 ms for FULL. (3) all zone offsets "
           "-23:59..+23:59 in the +-hh (whole hours), +-hhmm and +-hh:mm forms, basic and extended, on one instant each. "
           "Generated (rapidcheck, shrinking; and in bulk from a SplitMix stream seeded by VERIF_SEED/worker whose draws are written into "
@@ -31,7 +34,10 @@ PROP = dict(
           "fractional instants in the first/last half millisecond or at second 0 / 86399 of a day; ISO texts with a non-zero offset; "
           "strings that are date-like by a syntactic test (4 leading digits and >= 8 characters, or a capital first letter and >= 5 "
           "spaces). Distinct = by construction (enumerated) or distinct FNV-1a hash of the case (generated, fuzzer)."),
-    assumptions=["the harness's reference calendar (days-from-civil / civil-from-days in a March-based 400-year era) is right; it is audited at every "
+    assumptions=["the process runs with TZ=UTC (checked at start: TZ == 'UTC' and localOffset() == 0 on probe instants, otherwise the run is an "
+                 "infrastructure error): under it the local-time accessors split(), year(), month(), day(), hours(), minutes(), seconds(), "
+                 "weekDay() must give the UTC calendar fields; a replay outside TZ=UTC skips these comparisons",
+                 "the harness's reference calendar (days-from-civil / civil-from-days in a March-based 400-year era) is right; it is audited at every "
                  "start against a day-by-day odometer and against digests computed with python's datetime",
                  "TZ=UTC and LC_ALL=C (set by the driver); local-zone behaviour (texts without zone designator, the Date(y,m,d,...) and "
                  "Date(text, format) constructors) is not part of the property and not checked",
